@@ -19,6 +19,7 @@ package main
 
 import (
 	"fmt"
+	"os"
 	"runtime"
 	"sort"
 	"sync"
@@ -441,6 +442,11 @@ func layerPair(h *harness.H) {
 	orig := runtime.GOMAXPROCS(0)
 	defer runtime.GOMAXPROCS(orig)
 	procs := []int{2, 4, 16}
+	// Control experiment (not a fix, not used by ./check): with VERIF_C17_SERIALIZE_COMMITS=1
+	// the two Commit calls are serialised by the monitor. If the stale index disappears,
+	// the cause is the interleaving of the commits' KV apply / observer / delta-flush steps.
+	var commitMu sync.Mutex
+	serialize := os.Getenv("VERIF_C17_SERIALIZE_COMMITS") != ""
 	for c := 0; c < n; c++ {
 		if h.Skip("pair", c) {
 			continue
@@ -479,7 +485,13 @@ func layerPair(h *harness.H) {
 					errs[g] = s.tbl.NewCreate().Entry(&row).Exec(s.ctx, tx)
 					<-start
 					if errs[g] == nil {
+						if serialize {
+							commitMu.Lock()
+						}
 						errs[g] = tx.Commit(s.ctx)
+						if serialize {
+							commitMu.Unlock()
+						}
 					}
 					_ = tx.Close()
 				}(g)
